@@ -252,9 +252,19 @@ def resolve_local(fn, e, depth=3):
         others = [a for a in walk_no_nested(fn) if isinstance(a, (ast.AugAssign, ast.For, ast.With, ast.NamedExpr))
                   and any(isinstance(t, ast.Name) and t.id == e.id for t in ast.walk(
                       a.target if isinstance(a, (ast.AugAssign, ast.For, ast.NamedExpr)) else ast.Tuple(elts=[i.optional_vars for i in a.items if i.optional_vars is not None], ctx=ast.Store())))]
-        if len(defs) != 1 or others:
+        # `a, b = x, y`: element-wise, when both sides are literals of the same length
+        unpacked, opaque = [], 0
+        for a in walk_no_nested(fn):
+            if isinstance(a, ast.Assign):
+                for t in a.targets:
+                    if isinstance(t, (ast.Tuple, ast.List)) and any(isinstance(x, ast.Name) and x.id == e.id for x in ast.walk(t)):
+                        if isinstance(a.value, (ast.Tuple, ast.List)) and len(a.value.elts) == len(t.elts) and all(isinstance(x, ast.Name) for x in t.elts):
+                            unpacked += [v for x, v in zip(t.elts, a.value.elts) if x.id == e.id]
+                        else:
+                            opaque += 1
+        if others or opaque or len(defs) + len(unpacked) != 1:
             break
-        e = defs[0].value
+        e = defs[0].value if defs else unpacked[0]
         depth -= 1
     return e
 
@@ -316,4 +326,145 @@ def class_helpers(model, cls_q, f, depth=3):
                     seen.add(h.qual)
                     out.append(h)
                     todo.append((h, d + 1))
+    return out
+
+
+def clone(node, env=None):
+    """Structural copy of an AST (positions kept, no `_parent` links); Names in `env` are replaced by clones of env[name]."""
+    if isinstance(node, list):
+        return [clone(x, env) for x in node]
+    if not isinstance(node, ast.AST):
+        return node
+    if env and isinstance(node, ast.Name) and node.id in env:
+        return clone(env[node.id])
+    new = type(node)(**{f: clone(getattr(node, f, None), env) for f in node._fields})
+    for a in ("lineno", "col_offset", "end_lineno", "end_col_offset"):
+        if hasattr(node, a):
+            setattr(new, a, getattr(node, a))
+    return new
+
+
+def _set_parents(tree):
+    for n in ast.walk(tree):
+        for c in ast.iter_child_nodes(n):
+            c._parent = n
+    return tree
+
+
+def inline_stmt_calls(model, cls_q, fn, depth=2, keep=()):
+    """A copy of function node `fn` in which every statement `self.h(args)` (h a method of the same class that returns
+    nothing, positional arguments only) is replaced by h's body with the parameters substituted.  For pattern matching
+    only: a bare `return` of the helper is kept as it is.  Methods named in `keep` stay calls."""
+    def expand(stmts, d):
+        out = []
+        for s_ in stmts:
+            c = s_.value if isinstance(s_, ast.Expr) else None
+            if d < depth and isinstance(c, ast.Call) and isinstance(c.func, ast.Attribute) and isinstance(c.func.value, ast.Name) \
+                    and c.func.value.id == "self" and not c.keywords:
+                h = model.method(cls_q, c.func.attr)
+                if h is not None and h.node is not fn and c.func.attr not in keep and not any(isinstance(r, ast.Return) and r.value is not None for r in walk_no_nested(h.node)) \
+                        and not any(isinstance(y, (ast.Yield, ast.YieldFrom)) for y in walk_no_nested(h.node)):
+                    ps = [p for p in func_params(h.node) if p != "self"]
+                    if len(ps) == len(c.args):
+                        body = [b for b in h.node.body if not (isinstance(b, ast.Expr) and isinstance(b.value, ast.Constant))]
+                        out.extend(expand(clone(body, dict(zip(ps, c.args))), d + 1))
+                        continue
+            new = clone(s_) if d == 0 else s_
+            for fld in ("body", "orelse", "finalbody"):
+                if isinstance(getattr(new, fld, None), list) and not isinstance(new, (ast.FunctionDef, ast.ClassDef)):
+                    setattr(new, fld, expand(getattr(new, fld), d))
+            for hd in getattr(new, "handlers", []) or []:
+                hd.body = expand(hd.body, d)
+            out.append(new)
+        return out
+    new = clone(fn)
+    new.body = expand(fn.body, 0)
+    return _set_parents(new)
+
+
+def inline_closure_call(fn, e):
+    """If e is `name(args)` and `name` is a function defined directly inside `fn` whose body is a single `return <expr>`, that
+    expression with the parameters replaced by the arguments (it is evaluated where the call is); otherwise e itself."""
+    if not (isinstance(e, ast.Call) and isinstance(e.func, ast.Name) and not e.keywords):
+        return e
+    defs = [d for d in ast.walk(fn) if isinstance(d, ast.FunctionDef) and d is not fn and d.name == e.func.id]
+    if len(defs) != 1:
+        return e
+    body = [s_ for s_ in defs[0].body if not (isinstance(s_, ast.Expr) and isinstance(s_.value, ast.Constant))]
+    ps = func_params(defs[0])
+    if len(body) != 1 or not isinstance(body[0], ast.Return) or body[0].value is None or len(ps) != len(e.args):
+        return e
+    return _set_parents(clone(body[0].value, dict(zip(ps, e.args))))
+
+
+def inline_call(model, cls_q, fn, e):
+    """resolve_local, then a one-expression closure or same-class helper call, inlined."""
+    e = resolve_local(fn, e)
+    e2 = inline_closure_call(fn, e)
+    if e2 is e:
+        e2 = inline_self_call(model, cls_q, e)
+    return e2
+
+
+def subst_paths(fn):
+    """A copy of `fn` in which every read of a local that is assigned exactly once, from a plain attribute path
+    (`x = a.b`, also as an element of `x, y = a.b, c.d`), is replaced by that path.  The root of the path must not be
+    reassigned in fn.  Lets rules read `from_text is None` as `from_node.text is None`."""
+    assigned = {}
+    counts = {}
+    for a in walk_no_nested(fn):
+        tgts = []
+        if isinstance(a, ast.Assign):
+            for t in a.targets:
+                if isinstance(t, ast.Name):
+                    tgts.append((t.id, a.value))
+                elif isinstance(t, (ast.Tuple, ast.List)):
+                    if isinstance(a.value, (ast.Tuple, ast.List)) and len(a.value.elts) == len(t.elts):
+                        tgts += [(x.id, v) for x, v in zip(t.elts, a.value.elts) if isinstance(x, ast.Name)]
+                    else:
+                        tgts += [(x.id, None) for x in ast.walk(t) if isinstance(x, ast.Name)]
+        elif isinstance(a, ast.AnnAssign) and isinstance(a.target, ast.Name):
+            tgts.append((a.target.id, a.value))
+        elif isinstance(a, (ast.AugAssign, ast.NamedExpr)) and isinstance(a.target, ast.Name):
+            tgts.append((a.target.id, None))
+        elif isinstance(a, (ast.For, ast.comprehension)):
+            tgts += [(x.id, None) for x in ast.walk(a.target) if isinstance(x, ast.Name)]
+        elif isinstance(a, ast.With):
+            tgts += [(x.id, None) for i in a.items if i.optional_vars is not None for x in ast.walk(i.optional_vars) if isinstance(x, ast.Name)]
+        for nm, v in tgts:
+            counts[nm] = counts.get(nm, 0) + 1
+            assigned[nm] = v
+    env = {}
+    for nm, v in assigned.items():
+        if counts[nm] != 1 or v is None or not isinstance(v, ast.Attribute):
+            continue
+        root = v
+        while isinstance(root, ast.Attribute):
+            root = root.value
+        if isinstance(root, ast.Name) and counts.get(root.id, 0) == 0:
+            env[nm] = v
+
+    def sub(node):
+        if isinstance(node, list):
+            return [sub(x) for x in node]
+        if not isinstance(node, ast.AST):
+            return node
+        if isinstance(node, ast.Name) and isinstance(node.ctx, ast.Load) and node.id in env:
+            return clone(env[node.id])
+        new = type(node)(**{f: sub(getattr(node, f, None)) for f in node._fields})
+        for a in ("lineno", "col_offset", "end_lineno", "end_col_offset"):
+            if hasattr(node, a):
+                setattr(new, a, getattr(node, a))
+        return new
+    return _set_parents(sub(fn)) if env else fn
+
+
+def none_facts(node, stop=None):
+    """The `X is None` / `X is not None` facts that dominate `node`, as a set of strings 'X isNone' / 'X isnotNone' (no
+    blanks), whichever way round the branches are written."""
+    out = set()
+    for t, pol in flatten_conditions(dominating_conditions(node, stop=stop)):
+        if isinstance(t, ast.Compare) and len(t.ops) == 1 and isinstance(t.ops[0], (ast.Is, ast.IsNot)) and is_none(t.comparators[0]):
+            positive = isinstance(t.ops[0], ast.Is) == pol
+            out.add(ast.unparse(t.left).replace(" ", "") + ("isNone" if positive else "isnotNone"))
     return out
